@@ -22,19 +22,22 @@ MANIFEST = dict(
     category="proof",
     technique="Lean 4 theorems over a hand-written model of n0xml (input: the element tree ElementTree reports) + "
               "differential correspondence with the implementation + the statement run on the implementation against ElementTree",
-    text="Partial by nature: xml.etree.ElementTree (expat) is trusted, the model starts from the element tree it reports "
-         "(tag, text, attrib, children). Proved in Lean, unbounded in document size/depth and expression length, for the code with "
-         "fixes C18-a/b/c: C18_parse_preserves (the parsed structure has exactly the tags, attributes, leaf texts and sibling "
-         "order of the element tree, and the element tree is recovered from it up to the text of non-leaf elements, which n0xml "
-         "drops); C18_get_positional (get with explicit per-tag indexes returns the element at that position, the default when "
-         "there is none; tags without '/' and '['); C18_findall_resolves (every (path, value) returned by findall - any "
-         "expression, both find_first modes - resolves through get to that value); C18_conditions_exact (a step "
-         "tag|* [i]|[*] [text() op v] keeps exactly the siblings that pass the tag, per-tag index and text test, in order); "
-         "C18_deep_wildcard ('**' returns every leaf exactly once in document order, nothing for an empty document); "
-         "C18_findfirst / C18_in_iff (findfirst is the first findall result and 'in' is true exactly when findall is "
-         "non-empty, for expressions on which findall returns a list). The step regex is replaced by a hand-written parser "
-         "validated against re.match; every model function is compared with the real code on generated documents and "
-         "expressions, and the seven statements are executed on the real code with ElementTree as the oracle.",
+    text="Partial by nature: xml.etree.ElementTree (expat) is trusted; the model starts from the element tree it reports "
+         "(tag, text, attrib, children). Proved in Lean for the code with fixes C18-a/b/c applied, unbounded in document "
+         "size/depth and expression length: C18_parse_preserves (the parsed structure lists, in document order, exactly the "
+         "elements below the root with depth, tag, attributes and the text of every childless element); C18_get_positional "
+         "(list-form get with explicit per-tag indexes returns the stored value of the element at that position, the default "
+         "when there is none; tags without '/' and '['); C18_findall_resolves (every (path, value) pair returned by findall - "
+         "any list of steps incl. '*', '**', indexes, text() conditions and '..', both find_first modes - resolves through "
+         "list-form get to that value); C18_conditions_exact (for expressions of plain steps name|* [i]|[*] [text() op v], any "
+         "length, findall equals the sibling-filter semantics: exactly the siblings passing tag, per-tag index and text test, in "
+         "order); C18_deep_wildcard ('**' returns every leaf exactly once in document order, nothing for a document without "
+         "elements). NOT proved, differential only: C18_findfirst_stmt (findfirst = first findall result, outside the class of "
+         "finding C18-d) and C18_in_iff_stmt ('in' true iff findall non-empty); C18_findfirst_cex proves that findfirst differs "
+         "from the first findall result for '**[1]/..' (known finding C18-d). The step regex is replaced by a hand-written "
+         "parser validated against re.match (regex read from the source); the string forms (path split/normalisation, "
+         "'/'.join of result paths) and int()/str() are validated by correspondence streams; all seven statements are "
+         "executed on the real code with ElementTree as the oracle.",
     note="see notes/C18.md for the exact list of proved theorems and what stays differential only",
     design_ref="5/C18",
 )
@@ -741,7 +744,7 @@ def soup(rng, alphabet, maxlen):
 # ---------------------------------------------------------------------------
 def run(ctx):
     maxdepth = 4
-    n = ctx.budget(1500, 40000)
+    n = ctx.budget(1500, 30000)
     # ---- primitives ---------------------------------------------------------
     rng = ctx.rng("step")
     rx = source_regex()
